@@ -31,7 +31,7 @@ static void* waiter_fiber(void* a) {
     leave_section();
     FB_BLOCKING(s, "C05 fiber_cond_wait", fiber_cond_wait(&cv, &mu));
     enter_section(s, "returned from fiber_cond_wait");
-    credits--;
+    if (!signal_outside_mutex) credits--;
     returned_total++;
     if (credits < 0)
       vp_violation("C05", "cond:released-without-signal", "trial %d: fiber %d returned from fiber_cond_wait although every signal/broadcast issued so far had already released another waiter (credits=%ld)",
@@ -49,45 +49,49 @@ static void* signaller_fiber(void* a) {
   for (;;) {
     FB_BLOCKING(s, "C05 fiber_mutex_lock(user mutex)", fiber_mutex_lock(&mu));
     enter_section(s, "locked");
+    if (signal_outside_mutex) {
+      // weak mode: signals are issued after the mutex was released, so which wait a signal releases is not
+      // determined by the ledger; only mutex ownership on return and bounded progress are judged
+      const int all_returned = returned_total == target_waits;
+      const long in_wait = entered_total - returned_total;
+      leave_section();
+      fiber_mutex_unlock(&mu);
+      if (all_returned) break;
+      if (in_wait > 0) {
+        if (vp_rand(&s->rng) % 4 == 0) {
+          vp_add(c_broadcasts, 1);
+          FB_BLOCKING(s, "C05 fiber_cond_broadcast", fiber_cond_broadcast(&cv));
+        } else {
+          vp_add(c_signals, 1);
+          FB_BLOCKING(s, "C05 fiber_cond_signal", fiber_cond_signal(&cv));
+        }
+      }
+      fiber_yield();
+      continue;
+    }
     const int finished = entered_total == target_waits && waiting == 0;
-    int do_signal = 0, do_bc = 0;
-    long released = 0;
     if (waiting > 0) {
       if (vp_rand(&s->rng) % 4 == 0) {
-        do_bc = 1;
-        released = waiting;
+        const long released = waiting;
         credits += waiting;
         waiting = 0;
+        vp_add(c_broadcasts, 1);
+        vp_add(c_bc_released, released);
+        bc_hist[released >= 4 ? 4 : released]++;
+        FB_BLOCKING(s, "C05 fiber_cond_broadcast", fiber_cond_broadcast(&cv));
       } else {
-        do_signal = 1;
         waiting--;
         credits++;
+        vp_add(c_signals, 1);
+        FB_BLOCKING(s, "C05 fiber_cond_signal", fiber_cond_signal(&cv));
       }
     } else if (!finished && (vp_rand(&s->rng) & 15) == 0) {
-      // a signal with no waiter must be a no-op (not remembered)
+      // every registered waiter has been released: this signal must be a no-op (not remembered for later waits)
       vp_add(c_signal_nowaiter, 1);
-      leave_section();
-      fiber_cond_signal(&cv);
-      enter_section(s, "after no-waiter signal");
-    }
-    if (signal_outside_mutex) {
-      leave_section();
-      fiber_mutex_unlock(&mu);
-    }
-    if (do_signal) {
-      vp_add(c_signals, 1);
       FB_BLOCKING(s, "C05 fiber_cond_signal", fiber_cond_signal(&cv));
     }
-    if (do_bc) {
-      vp_add(c_broadcasts, 1);
-      vp_add(c_bc_released, released);
-      bc_hist[released >= 4 ? 4 : released]++;
-      FB_BLOCKING(s, "C05 fiber_cond_broadcast", fiber_cond_broadcast(&cv));
-    }
-    if (!signal_outside_mutex) {
-      leave_section();
-      fiber_mutex_unlock(&mu);
-    }
+    leave_section();
+    fiber_mutex_unlock(&mu);
     if (finished) break;
     fiber_yield();
   }
@@ -124,6 +128,7 @@ void* sy_cond_root(void* x) {
     for (i = 0; i < S; ++i) sl[n++] = fb_spawn(signaller_fiber, NULL);
     fb_join_all(sl, n);
     fiber_manager_all_stats(&st1);
+    if (signal_outside_mutex) waiting = 0;  // not tracked in the weak mode
     if (credits != 0 || waiting != 0 || returned_total != target_waits)
       vp_violation("C05", "cond:ledger-unbalanced", "trial %d: all fibers finished with credits=%ld waiting=%ld returned=%ld of %ld", trial, credits, waiting,
                    returned_total, target_waits);
